@@ -73,6 +73,9 @@ func maxLen(ss ...string) int64 {
 func (s *stub) Close() error { s.log.add(evT{"ev": "SessionClose"}); return nil }
 func (s *stub) Login(u, p string) error {
 	s.call("Login", "buffered", maxLen(u, p))
+	if u == "bad" {
+		return imapserver.ErrAuthFailed // rejected credentials: the connection goes on, unauthenticated
+	}
 	return nil
 }
 func (s *stub) Select(m string, o *imap.SelectOptions) (*imap.SelectData, error) {
@@ -217,7 +220,12 @@ var transcripts = map[string]string{
 		"p4 CREATE {4096+}\r\n" + strings.Repeat("m", 4096) + "\r\np5 CREATE {4097+}\r\n" + strings.Repeat("m", 4097) + "\r\n" +
 		"p6 SELECT INBOX\r\np7 SEARCH SUBJECT {6000+}\r\n" + strings.Repeat("s", 6000) + "\r\np8 APPEND m {5000+}\r\n" + strings.Repeat("a", 5000) + "\r\np9 NOOP\r\n",
 	"plushuge": "q1 LOGIN u p\r\nq2 APPEND m {104857601+}\r\nSubject: never sent in full\r\n",
-	"cancel":   "g1 AUTHENTICATE PLAIN\r\n*\r\ng2 AUTHENTICATE PLAIN\r\n!!!notbase64\r\ng3 LOGIN u p\r\ng4 IDLE\r\nNOTDONE\r\ng5 NOOP\r\n",
+	// credentials the backend rejects, again and again, through LOGIN and through both forms of AUTHENTICATE
+	// (the connection must stay a connection like any other: answered, and torn down when the peer goes)
+	"authfail": "h1 LOGIN bad pw\r\nh2 AUTHENTICATE PLAIN\r\nAGJhZABwdw==\r\nh3 AUTHENTICATE PLAIN AGJhZABwdw==\r\nh4 AUTHENTICATE PLAIN\r\nAGJhZABwdw==\r\n" +
+		"h5 LOGIN bad pw\r\nh6 AUTHENTICATE PLAIN AGJhZABwdw==\r\nh7 AUTHENTICATE PLAIN\r\n*\r\nh8 LOGIN bad {2}\r\npw\r\nh9 AUTHENTICATE PLAIN\r\nAGJhZABwdw==\r\n" +
+		"h10 LOGIN u p\r\nh11 UNAUTHENTICATE\r\nh12 AUTHENTICATE PLAIN AGJhZABwdw==\r\nh13 LOGIN bad pw\r\nh14 AUTHENTICATE PLAIN AGJhZABwdw==\r\nh15 NOOP\r\n",
+	"cancel": "g1 AUTHENTICATE PLAIN\r\n*\r\ng2 AUTHENTICATE PLAIN\r\n!!!notbase64\r\ng3 LOGIN u p\r\ng4 IDLE\r\nNOTDONE\r\ng5 NOOP\r\n",
 }
 
 type caseT struct {
